@@ -32,6 +32,10 @@ enum Op {
     /// per-ring message kind 0..7 with an out-of-range ring index
     BadIndex(u8, usize),
     BackendReq,
+    /// device-level operations forwarded through the backend adapters: 0 GET_CONFIG,
+    /// 1 SET_CONFIG, 2 GET_SHARED_OBJECT, 3 SET_DEVICE_STATE_FD, 4 CHECK_DEVICE_STATE,
+    /// 5 GET_SHMEM_CONFIG, 6 GET_QUEUE_NUM / GET_MAX_MEM_SLOTS
+    Device(u8, u32, u32),
 }
 
 pub fn def() -> PropDef {
@@ -96,7 +100,7 @@ fn run_v<V: VringT<GM<()>> + Clone + Send + Sync + 'static>(sim: &Sim, _cfg: &Ru
             offered |= VIRTIO_RING_F_EVENT_IDX;
         }
         offered |= t.lattice64() & 0x0000_ffff_0000_00ff;
-        let mut protos = pf::MQ | pf::BACKEND_REQ | pf::CONFIGURE_MEM_SLOTS;
+        let mut protos = pf::MQ | pf::BACKEND_REQ | pf::CONFIGURE_MEM_SLOTS | pf::CONFIG | pf::DEVICE_STATE;
         for b in [pf::REPLY_ACK, pf::SHARED_OBJECT, pf::SHMEM] {
             if t.chance(1, 2) {
                 protos |= b;
@@ -106,7 +110,7 @@ fn run_v<V: VringT<GM<()>> + Clone + Send + Sync + 'static>(sim: &Sim, _cfg: &Ru
         let mut ops = Vec::new();
         for _ in 0..n {
             let r = t.draw(nrings as u64) as usize;
-            ops.push(match t.draw(16) {
+            ops.push(match t.draw(18) {
                 0 | 1 => Op::SetNum(r, gen_num(t)),
                 2 => Op::SetBase(r, t.lattice32() as u16),
                 3 | 4 => {
@@ -132,6 +136,10 @@ fn run_v<V: VringT<GM<()>> + Clone + Send + Sync + 'static>(sim: &Sim, _cfg: &Ru
                 12 => Op::ReplaceTable,
                 13 => Op::BadIndex(t.draw(8) as u8, nrings + if t.chance(1, 3) { 254 + t.draw(700) } else { t.draw(254) } as usize),
                 14 => Op::BackendReq,
+                15 => {
+                    let size = 1 + t.draw(64) as u32;
+                    Op::Device(t.draw(7) as u8, t.draw((0x1000 - size) as u64) as u32, size)
+                }
                 _ => Op::Kick(r),
             });
         }
@@ -149,7 +157,7 @@ fn run_v<V: VringT<GM<()>> + Clone + Send + Sync + 'static>(sim: &Sim, _cfg: &Ru
             num_queues: nrings,
             max_queue_size: max_q,
             features: offered,
-            protocol_features: pf::MQ | pf::BACKEND_REQ | pf::CONFIGURE_MEM_SLOTS | pf::REPLY_ACK | pf::SHARED_OBJECT | pf::SHMEM,
+            protocol_features: pf::MQ | pf::BACKEND_REQ | pf::CONFIGURE_MEM_SLOTS | pf::REPLY_ACK | pf::SHARED_OBJECT | pf::SHMEM | pf::CONFIG | pf::DEVICE_STATE,
             queues_per_thread: vec![0b11],
             add_used_on_event: true,
             ..Default::default()
@@ -426,6 +434,103 @@ fn run_v<V: VringT<GM<()>> + Clone + Send + Sync + 'static>(sim: &Sim, _cfg: &Ru
                     }
                 }
                 drop(b);
+            }
+            Op::Device(kind, off, size) => {
+                use vhost::vhost_user::message::{VhostTransferStateDirection, VhostTransferStatePhase, VhostUserConfigFlags};
+                let bad = |what: &str, msg: String| -> ! { viol("device_operation_passthrough", what.to_string(), format!("step {step} {op:?}: {msg}")) };
+                match kind {
+                    0 => {
+                        let buf = vec![0u8; *size as usize];
+                        match vmm.fe.get_config(*off, *size, VhostUserConfigFlags::WRITABLE, &buf) {
+                            Ok((_, p)) => {
+                                let want: Vec<u8> = (0..*size).map(|i| (off.wrapping_add(i) as u8) ^ 0x3c).collect();
+                                if p != want || log.lock().unwrap().get_config.last() != Some(&(*off, *size)) {
+                                    bad("GET_CONFIG", format!("payload {:02x?} / backend saw {:?}", &p[..p.len().min(8)], log.lock().unwrap().get_config.last()));
+                                }
+                            }
+                            Err(e) => bad("GET_CONFIG", format!("{e:?}")),
+                        }
+                    }
+                    1 => {
+                        let buf: Vec<u8> = (0..*size).map(|i| (i as u8).wrapping_mul(7) ^ (*off as u8)).collect();
+                        if let Err(e) = vmm.fe.set_config(*off, VhostUserConfigFlags::WRITABLE, &buf) {
+                            bad("SET_CONFIG", format!("{e:?}"));
+                        }
+                        sim.settle();
+                        if log.lock().unwrap().set_config.last() != Some(&(*off, buf.clone())) {
+                            bad("SET_CONFIG", "backend did not receive (offset, bytes) as sent".into());
+                        }
+                    }
+                    2 if protos & pf::SHARED_OBJECT != 0 => {
+                        let mut u = [0x77u8; 16];
+                        u[0] = *off as u8;
+                        u[1] = *size as u8;
+                        match vmm.fe.get_shared_object(&VhostUserSharedMsg { uuid: uuid::Uuid::from_bytes(u) }) {
+                            Ok(f) => {
+                                let g = log.lock().unwrap();
+                                match g.shared_objects.last() {
+                                    Some((lu, lf)) if *lu == u && fdu::same_open_file(lf.as_raw_fd(), f.as_raw_fd()) => {}
+                                    _ => bad("GET_SHARED_OBJECT", "uuid or file differ from what the backend saw / returned".into()),
+                                }
+                            }
+                            Err(e) => bad("GET_SHARED_OBJECT", format!("{e:?}")),
+                        }
+                    }
+                    3 => {
+                        let dir = if off % 2 == 0 { VhostTransferStateDirection::SAVE } else { VhostTransferStateDirection::LOAD };
+                        let f = fdu::memfd("statepipe", 4096);
+                        let dup: std::os::fd::OwnedFd = f.try_clone().unwrap().into();
+                        match vmm.fe.set_device_state_fd(dir, VhostTransferStatePhase::STOPPED, dup) {
+                            Ok(ret) => {
+                                let g = log.lock().unwrap();
+                                match g.device_state.last() {
+                                    Some((d, got, back)) => {
+                                        let ok = *d == dir as u32
+                                            && fdu::same_open_file(got.as_raw_fd(), f.as_raw_fd())
+                                            && match (&ret, back) {
+                                                (Some(a), Some(b)) => fdu::same_open_file(a.as_raw_fd(), b.as_raw_fd()),
+                                                (None, None) => true,
+                                                _ => false,
+                                            };
+                                        if !ok {
+                                            bad("SET_DEVICE_STATE_FD", "direction, passed file or returned file differ".into());
+                                        }
+                                    }
+                                    None => bad("SET_DEVICE_STATE_FD", "backend not invoked".into()),
+                                }
+                            }
+                            Err(e) => bad("SET_DEVICE_STATE_FD", format!("{e:?}")),
+                        }
+                    }
+                    4 => {
+                        let n0 = log.lock().unwrap().check_device_state;
+                        if let Err(e) = vmm.fe.check_device_state() {
+                            bad("CHECK_DEVICE_STATE", format!("{e:?}"));
+                        }
+                        if log.lock().unwrap().check_device_state != n0 + 1 {
+                            bad("CHECK_DEVICE_STATE", "backend not invoked exactly once".into());
+                        }
+                    }
+                    5 if protos & pf::SHMEM != 0 => match vmm.fe.get_shmem_config() {
+                        Ok(c) if c.nregions == 3 && c.memory_sizes[..3] == [0x1000, 0x22000, 0x333000] && c.memory_sizes[3..].iter().all(|x| *x == 0) => {}
+                        other => bad("GET_SHMEM_CONFIG", format!("{:?}", other.map(|c| (c.nregions, c.memory_sizes[..4].to_vec())))),
+                    },
+                    6 => {
+                        match vmm.fe.get_queue_num() {
+                            Ok(n) if n == nrings as u64 => {}
+                            other => bad("GET_QUEUE_NUM", format!("{other:?}")),
+                        }
+                        // the frontend remembers the queue count: keep its limit wide for the
+                        // out-of-range index probes
+                        match vmm.fe.get_max_mem_slots() {
+                            Ok(n) if n > 0 => {}
+                            other => bad("GET_MAX_MEM_SLOTS", format!("{other:?}")),
+                        }
+                        // get_queue_num() narrowed the frontend's own index limit to nrings
+                        dead = true;
+                    }
+                    _ => {}
+                }
             }
             Op::Kick(r) => {
                 if !m[*r].started {
